@@ -217,6 +217,18 @@ class Interp:
             tgt = st.targets[0] if isinstance(st, ast.Assign) else st.target
             if st.value is None:
                 return [("normal", s, env, None, trail)]
+            if isinstance(tgt, ast.Name) and isinstance(st.value, (ast.Compare, ast.BoolOp)) or \
+                    (isinstance(tgt, ast.Name) and isinstance(st.value, ast.UnaryOp) and isinstance(st.value.op, ast.Not)):
+                if not any(isinstance(x, (ast.Await, ast.Call)) and not (isinstance(x, ast.Call) and isinstance(x.func, ast.Attribute) and x.func.attr in ("get",))
+                           and not (isinstance(x, ast.Call) and isinstance(x.func, ast.Name) and x.func.id in ("int", "str", "isinstance", "len")) for x in ast.walk(st.value)):
+                    # a local that records the outcome of a test: the configurations are split exactly as a branch on that test would split
+                    # them, and the local is the (known) outcome in each - later tests of the local stay correlated with the state
+                    outs = []
+                    for truth, s2 in self.cond(st.value, s, env, qual):
+                        env2 = dict(env)
+                        env2[tgt.id] = truth if truth is not None else UNK
+                        outs.append(("normal", s2, env2, None, trail))
+                    return outs
             outs = []
             for k, s2, v, tr in self.effect(st.value, s, env, trail, qual):
                 if k != "normal":
